@@ -194,7 +194,7 @@ def build_node(ns: dict, path: str, built: Built, *, src_toggle=[0]):
             ns.get("pyname", name),
             fid,
             params,
-            is_async=(ns.get("async") if ns.get("async") == "coro" and k == "fn" else bool(ns.get("async"))) and k in ("fn", "int"),
+            is_async=("coro" if ns.get("async") == "coro" and k == "fn" else bool(ns.get("async")) and k in ("fn", "int")),
             is_gen=bool(ns.get("gen")),
             with_source=with_source,
             ret_ann=ns.get("ret_ann"),
